@@ -45,7 +45,7 @@ package serverinterceptors
 // other error is passed through as it is
 //@ func UnaryBreakerInterceptor
 //@   property C01
-//@   call DoWithAcceptableCtx#0: assert arg_ctx == ctx && arg_name == info.FullMethod
+//@   call DoWithAcceptableCtx#0: assert arg_ctx == ctx && arg_name == info.FullMethod && arg_acceptable == serverSideAcceptable
 //@ func UnaryBreakerInterceptor closure 0
 //@   property C01
 //@   flag callbacks_noheap
@@ -53,7 +53,7 @@ package serverinterceptors
 //@   ensures calls(handler) == old(calls(handler)) + 1 && result == ret(handler, 1)
 //@ func StreamBreakerInterceptor
 //@   property C01
-//@   call DoWithAcceptable#0: assert arg_name == info.FullMethod
+//@   call DoWithAcceptable#0: assert arg_name == info.FullMethod && arg_acceptable == serverSideAcceptable
 //@ func StreamBreakerInterceptor closure 0
 //@   property C01
 //@   flag callbacks_noheap
@@ -64,3 +64,9 @@ package serverinterceptors
 //@   ensures implies(err == nil, result == nil)
 //@   ensures implies(err != nil && !errors.Is(err, breaker.ErrServiceUnavailable), result == err)
 //@   call Error#0: assert arg_c == gcodes.Unavailable
+
+// what the server side counts as healthy: never its own deadline and never a shed request of its own breaker (both have the
+// grpc code Unknown, which the generic status predicate accepts), otherwise the status-code predicate
+//@ func serverSideAcceptable
+//@   property C01
+//@   ensures implies(err == context.DeadlineExceeded || err == breaker.ErrServiceUnavailable, !result)
